@@ -44,6 +44,13 @@ def reuse_checks(ctx, make, b, b2, site, preds, rel_tol=1e-6):
     x4 = ctx.call(lambda: obj @ b3)  # an equal operand in another array
     if not judge(x4, "equal-operand-new-array"):
         return
+    # the same object after the caller asked it for its dense form (whatever to_dense() leaves behind - a cached matrix, a
+    # converged-looking info record - later products are still the routine's own answer for that operand)
+    if max(getattr(obj, "shape", (999, 999))) <= 40:
+        Dd = ctx.call(obj.to_dense)
+        if not is_err(Dd):
+            if not judge(ctx.call(lambda: obj @ b2.copy()), "product-after-to_dense"):
+                return
     # an operand of the same shape and dtype that is smaller by six orders of magnitude, after the larger ones (anything the
     # object kept from the earlier solves - a warm start, a scale, a tolerance - is now wrong by that factor)
     b5 = (b2 * 1e-6).astype(b2.dtype)
